@@ -48,6 +48,9 @@ type exInfo struct {
 	PkgDir   string
 	Paths    []pathSpec
 	Testdata []string // regular files below PkgDir/testdata, relative to it
+	// Aux: further production paths the plugin's own (non-test) code names but does not "require":
+	// files it opens next to the required one (e.g. containerd's snapshotter metadata.db).
+	Aux []pathSpec
 }
 
 type fakeInfo struct {
@@ -76,7 +79,10 @@ func (a fakeAPI) Stat() (fs.FileInfo, error) {
 var pathLike = regexp.MustCompile(`^[A-Za-z0-9._@+\-/ ()\\:,~#=\[\]]+$`)
 
 // literals returns every string literal of the .go files directly in dir.
-func literals(dir string) []string {
+func literals(dir string) []string { return literalsOf(dir, true) }
+
+// literalsOf: withTests=false leaves *_test.go out.
+func literalsOf(dir string, withTests bool) []string {
 	fset := token.NewFileSet()
 	des, err := os.ReadDir(dir)
 	if err != nil {
@@ -84,7 +90,7 @@ func literals(dir string) []string {
 	}
 	var out []string
 	for _, de := range des {
-		if de.IsDir() || !strings.HasSuffix(de.Name(), ".go") {
+		if de.IsDir() || !strings.HasSuffix(de.Name(), ".go") || (!withTests && strings.HasSuffix(de.Name(), "_test.go")) {
 			continue
 		}
 		f, err := parser.ParseFile(fset, filepath.Join(dir, de.Name()), nil, parser.SkipObjectResolution)
@@ -92,6 +98,9 @@ func literals(dir string) []string {
 			continue
 		}
 		ast.Inspect(f, func(n ast.Node) bool {
+			if _, isImport := n.(*ast.ImportSpec); isImport {
+				return false
+			}
 			if bl, ok := n.(*ast.BasicLit); ok && bl.Kind == token.STRING {
 				if s, err := strconv.Unquote(bl.Value); err == nil {
 					out = append(out, s)
@@ -141,6 +150,9 @@ func rankFixtures(pkgDir string, files []string, p string) []string {
 			s += 50
 		case ext == "" && strings.HasPrefix(fb, base):
 			s += 40
+		}
+		if stem := strings.TrimSuffix(base, ext); ext != "" && len(stem) > 2 && strings.HasPrefix(fb, stem) && fb != base {
+			s += 5
 		}
 		lf := strings.ToLower(f)
 		if strings.Contains(lf, "valid") && !strings.Contains(lf, "invalid") {
@@ -329,6 +341,24 @@ func discover(maxPaths int) []exInfo {
 					break
 				}
 			}
+			isPath := map[string]bool{}
+			for _, c := range cands {
+				isPath[c.Path] = true
+			}
+			seenAux := map[string]bool{}
+			for _, lit := range literalsOf(pkgDir, false) {
+				a := strings.TrimPrefix(filepath.ToSlash(lit), "/")
+				if len(a) == 0 || len(a) > 160 || strings.Count(a, "/") < 2 || !pathLike.MatchString(a) || strings.ContainsAny(a, " \\:,#=[]()~") || path.Clean(a) != a ||
+					strings.HasPrefix(a, "../") || strings.HasPrefix(a, "testdata/") || strings.HasPrefix(a, "td/") || strings.Contains(a, "github.com") || isPath[a] || seenAux[a] || a == info.Name || len(info.Aux) >= 6 {
+					continue
+				}
+				seenAux[a] = true
+				ap := pathSpec{Path: a, Mode: 0o644, Cands: rankFixtures(pkgDir, info.Testdata, a)}
+				if len(ap.Cands) > 0 {
+					ap.Fixture = ap.Cands[0]
+				}
+				info.Aux = append(info.Aux, ap)
+			}
 			for i := range info.Paths {
 				info.Paths[i].Cands = rankFixtures(pkgDir, info.Testdata, info.Paths[i].Path)
 				if len(info.Paths[i].Cands) > 0 {
@@ -419,6 +449,16 @@ func scanJobs(infos []exInfo, thorough bool) []scanJob {
 			}
 		}
 	}
+	// aux-* variants: required files valid, the auxiliary files empty / cut in half / bit-flipped
+	for _, root := range rootKinds {
+		for _, v := range auxVariants {
+			for _, in := range infos {
+				if len(in.Aux) > 0 && len(in.Paths) > 0 {
+					out = append(out, scanJob{Ex: in.Name, Variant: v, Root: root, Group: groupOf(in.Req)})
+				}
+			}
+		}
+	}
 	for _, root := range rootKinds {
 		for _, v := range sqliteVariants {
 			out = append(out, scanJob{Ex: "os/rpm", Variant: v, Root: root, Group: "linux"})
@@ -440,6 +480,8 @@ func scanJobs(infos []exInfo, thorough bool) []scanJob {
 var sqliteVariants = []string{"sqlite-wal-3corrupt", "sqlite-wal-1corrupt", "sqlite-wal-norows", "sqlite-rollback-3corrupt"}
 
 var sqliteCache = map[string][]byte{}
+
+var auxVariants = []string{"aux-empty", "aux-half", "aux-flip"}
 
 // sqliteRPMDB builds the database in scratch (a directory the caller removes) and returns its bytes.
 func sqliteRPMDB(variant, scratch string) []byte {
@@ -544,7 +586,20 @@ func buildTree(dir string, infos []exInfo, j scanJob) int {
 			if ps.Fixture != "" {
 				b, _ = os.ReadFile(ps.Fixture)
 			}
-			place(ps.Path, variantBytes(b, j.Variant), ps.Mode)
+			v := j.Variant
+			if strings.HasPrefix(v, "aux-") {
+				v = "valid"
+			}
+			place(ps.Path, variantBytes(b, v), ps.Mode)
+		}
+		if !strings.HasPrefix(j.Variant, "sqlite-") {
+			for _, ps := range in.Aux {
+				var b []byte
+				if ps.Fixture != "" {
+					b, _ = os.ReadFile(ps.Fixture)
+				}
+				place(ps.Path, variantBytes(b, strings.TrimPrefix(j.Variant, "aux-")), ps.Mode)
+			}
 		}
 		if j.Variant == "valid" {
 			// the plugin's whole testdata directory as well: most plugins match by base name or
